@@ -59,6 +59,49 @@ class Boom(IOError):
     pass
 
 
+def serializer_options(ds, scratch):
+    """The complete serialisation *of that call*: keyword arguments meant for the serializer (indent, sort_keys,
+    ensure_ascii for JSON; force_types for XML; rdf_format for RDF) reach it when the destination is a file name as they
+    do when the text is returned — the named file holds exactly the text the same call returns without destination."""
+    fails, n, distinguishing = [], 0, 0
+    work = os.path.join(scratch, "opts")
+    shutil.rmtree(work, ignore_errors=True)
+    os.makedirs(work)
+    cases = [("json", {"indent": 2}), ("json", {"indent": 4, "sort_keys": True}), ("json", {"ensure_ascii": False}),
+             ("json", {"separators": (",", ":")}), ("xml", {"force_types": True}), ("rdf", {"rdf_format": "nt"}),
+             ("rdf", {"rdf_format": "xml"})]
+    for di, doc in enumerate(ds[:2]):
+        for ci, (fmt, kw) in enumerate(cases):
+            n += 1
+            name = os.path.join(work, "o%d_%d.%s" % (di, ci, fmt))
+            case = {"name": os.path.basename(name), "format": fmt, "serializer_arguments": {k: repr(v) for k, v in kw.items()}}
+            try:
+                want = doc.serialize(format=fmt, **kw)
+                plain = doc.serialize(format=fmt)
+                with mock.patch("builtins.print"):
+                    doc.serialize(name, format=fmt, **kw)
+                got = open(name, "rb").read().decode("utf-8")
+            except Exception as e:
+                fails.append(dict(case, what="serialize to a file name with serializer arguments raised", exc=repr(e)[:200]))
+                continue
+            if fmt == "rdf":
+                # rdflib's line and blank-node order is not repeatable between two calls: compare as sets of lines for
+                # N-Triples, by syntax family otherwise (TriG text is neither N-Triples nor RDF/XML)
+                if kw["rdf_format"] == "nt":
+                    same = sorted(got.split("\n")) == sorted(want.split("\n"))
+                else:
+                    same = got.lstrip().startswith("<?xml") == want.lstrip().startswith("<?xml")
+            else:
+                same = got == want
+            if want != plain:
+                distinguishing += 1
+            if not same:
+                fails.append(dict(case, what="the named file does not hold the serialisation this call returns without destination "
+                                             "(serializer arguments lost or changed on the way to the file)",
+                                  file_starts=got[:80], returned_starts=want[:80]))
+    return n, distinguishing, fails
+
+
 def chdir_sequences(ds, scratch):
     """A relative file name means the file of that name in the working directory *at the time of the call*: the same
     relative name written from directory A, then from B, then from A again (other documents, other formats) — after each
@@ -588,6 +631,15 @@ def run(tier, seed, log, model_runs=True, enlarged=False):
         for f in ln_fails[:3]:
             violations.append({"kind": "failing-input", "failure": f, "case": {"name": f.get("name"), "destination": f.get("destination_is")}})
         n_cd += n_ln
+        try:
+            n_op, n_op_dist, op_fails = serializer_options(ds, scratch)
+        except Exception:
+            n_op, n_op_dist, op_fails = 0, 0, []
+            violations.append({"kind": "harness-error", "what": "harness error", "detail": traceback.format_exc()[-1500:]})
+        for f in op_fails[:3]:
+            violations.append({"kind": "failing-input", "failure": f, "case": {"name": f.get("name"), "format": f.get("format"),
+                                                                                "serializer_arguments": f.get("serializer_arguments")}})
+        log("serializer arguments through a file name: %d calls, %d of them change the text" % (n_op, n_op_dist))
         log("ran %d file-write cases and %d calls in working-directory sequences in %.1fs" % (len(recs), n_cd, time.time() - t0))
         # correspondence: the model's destination path vs the file actually written
         if model_runs:
@@ -638,6 +690,20 @@ def replay(path, log):
     r = json.load(open(path))
     print(json.dumps(r, indent=1, default=str)[:3000])
     c = r.get("case")
+    if isinstance(c, dict) and ("serializer_arguments" in c or "sequence" in c or "destination" in c):
+        # the sub-checks are re-run as a whole (fixed cases, a second or two)
+        scratch = tempfile.mkdtemp(prefix="c17r_")
+        try:
+            if "serializer_arguments" in c:
+                fails = serializer_options(docs(), scratch)[2]
+            elif "sequence" in c:
+                fails = chdir_sequences(docs(), scratch)[1]
+            else:
+                fails = symlink_destinations(docs(), scratch)[1]
+            print(fails[:3])
+            return 1 if fails else 0
+        finally:
+            shutil.rmtree(scratch, ignore_errors=True)
     if isinstance(c, dict):
         scratch = tempfile.mkdtemp(prefix="c17r_")
         try:
